@@ -85,6 +85,9 @@ def gen_family(prop, imp, fam, pred, nfiles=16, per=16, extra_all=""):
 gen_family("C14", "Prism.Check.C14", "alpha", "alphaChunk16",
            extra_all="theorem alpha8 : alphaAll8 = true := by decide +kernel\n")
 print("wrote C14 alpha family")
+for sp in ["srgb", "adobe", "prophoto", "p3"]:
+    gen_family("C14", "Prism.Check.C14", "premul" + sp, f"premulChunk .{sp}")
+print("wrote C14 premul families")
 
 for sp in ["srgb", "adobe", "prophoto", "p3"]:
     gen_family("C02", "Prism.Check.C02", "enc" + sp, f"enc16ChunkOk .{sp}",
